@@ -490,7 +490,7 @@ where
 
 	let (chain_outs, last_index) = collect_chain_outputs(
 		&keychain,
-		client,
+		client.clone(),
 		pmmr_range.0,
 		Some(pmmr_range.1),
 		status_send_channel,
@@ -532,6 +532,14 @@ where
 
 	// mark problem spent outputs as unspent (confirmed against a short-lived fork, for example)
 	for m in accidental_spend_outs.into_iter() {
+		// The chain outputs were collected earlier and the chain may have moved on
+		// since: only revive the output if the node still reports it as unspent
+		if !client
+			.get_outputs_from_node(vec![m.1.commit])?
+			.contains_key(&m.1.commit)
+		{
+			continue;
+		}
 		let mut o = m.0;
 		let msg = format!(
 			"Output for {} with ID {} ({:?}) marked as spent but exists in UTXO set. \
